@@ -104,10 +104,12 @@ def r04_2(prog, out):
     sl = Slicer(prog)
     pm_new = A.ty("PulledMessage") + "::new"
     info_dl = A.cell("SubscriptionInfo", "ack_deadline")
-    for bid, effs in R.poppers():
+    for bid0, effs in R.poppers():
+      # the delivery may be built in a closure of the handler (`batch.into_iter().map(|m| PulledMessage::new(..))`)
+      for bid in [bid0] + [c for c in prog.facts.descendants(bid0) if prog.facts.body(c) is not None and not prog.facts.body(c).coroutine]:
         bi = prog.info(bid)
         for bb, t in bi.calls(lambda c: c.target == pm_new):
-            s = sl.of(bid, t.args[2])
+            s = sl.of(bid, t.args[2]) if bid == bid0 else sl.of_resolved(bid, t.args[2])
             key = "deadline-source:%s" % prog.short(bid)
             subs = [c for c in s.calls if "ops::Sub" in c or "checked_sub" in c or "saturating_sub" in c]
             if subs:
